@@ -543,6 +543,54 @@ def guard_eval(repo: Repo) -> RuleRun:
         expect(gac, res, bad, f"length_ratio={ratio}", ("ValueError",))
         if bad:
             r.check(gr.get("specification") == [], gac, "nothing appended on rejection", "Grading.add_chop appends a division before rejecting the length ratio", key=f"length_ratio={ratio}:state")
+    # ... and the ratio the user gave is the ratio the guard sees: the Chop constructor does not repair it on the way
+    cpi = repo.find_method(repo.cls("grading.chop.Chop"), "__post_init__")
+    if cpi is None:
+        raise AnalysisError("Chop.__post_init__ vanished")
+
+    def pi_hook(ev_, call, name):
+        nm = (name or "").split(".")[-1]
+        if nm == "int" and len(call.args) == 1:
+            v = ev_.eval(call.args[0])
+            if isinstance(v, (int, float)) and not isinstance(v, bool):
+                return int(v)
+        if nm in ("max", "min") and len(call.args) == 2:
+            a, b = ev_.eval(call.args[0]), ev_.eval(call.args[1])
+            if all(isinstance(x, (int, float)) and not isinstance(x, bool) for x in (a, b)):
+                return max(a, b) if nm == "max" else min(a, b)
+        if nm == "clip" and len(call.args) == 3:
+            v, lo, hi = (ev_.eval(a) for a in call.args)
+            if all(isinstance(x, (int, float)) for x in (v, lo, hi)):
+                return min(max(v, lo), hi)
+        if nm == "dict":
+            return {}
+        return NO_MATCH
+
+    for ratio in (1.5, 2, 1.001, 0, -0.5, 0.25):
+        ch = Obj("chop", cls=repo.cls("grading.chop.Chop"))
+        for fld in ("start_size", "end_size", "c2c_expansion", "total_expansion"):
+            ch.set(fld, None)
+        ch.set("count", 5)
+        ch.set("length_ratio", ratio)
+        ch.set("preserve", "c2c_expansion")
+        ev = Evaluator(repo=repo, module=cpi.module, call_hook=pi_hook)
+        ev.float_arith = True
+        try:
+            ev.call_funcinfo(cpi, [ch])
+            after = ch.get("length_ratio")
+        except Raised:
+            after = ratio  # refused on the spot: fine as well
+        except NotEvaluable as err:
+            raise AnalysisError(f"Chop.__post_init__ not evaluable with length_ratio={ratio}: {err}") from err
+        r.check(
+            after == ratio,
+            cpi,
+            f"Chop(length_ratio={ratio}) keeps the ratio it was given",
+            f"Chop(count=5, length_ratio={ratio}) stores length_ratio={after!r}: the out-of-range ratio is repaired silently before Grading.add_chop - which refuses ratios outside (0, 1] - can see it, "
+            "and a section as long as the whole edge is graded where the documented precondition demands an error",
+            cpi.node,
+            key=f"chop-ratio:{ratio}",
+        )
     # LoftedShape: EVERY mid sketch must have as many faces as the end sketches, wherever it stands in the list
     lsi = repo.func("construct.shape.LoftedShape.__init__")
 
